@@ -68,8 +68,10 @@ class Canonicalizer:
     def _canonicalize_variable(self, variable: Variable) -> Variable:
         return variable
 
-    def _sorted_key(self, variable: Variable) -> int:
-        return self.ordering_level[variable.name]
+    def _sorted_key(self, variable: Variable) -> tuple[int, str]:
+        # several variables can share a name (the same variable in different worlds, or with
+        # different value marks), so ties are broken by the printed form
+        return self.ordering_level[variable.name], variable.to_y0()
 
     def canonicalize(self, expression: Expression) -> Expression:
         """Canonicalize an expression.
